@@ -50,6 +50,21 @@ impl Record {
 //@endfn
 }
 
+// Record == Record is what /repo's `impl PartialEq for Record` says (at the time of writing: the VALUE bytes only - flags,
+// CAS and expiry do not take part).  The impl is extracted and checked against this spec; the obligation carries the
+// pseudo-property ALL: if it fails, every contract that mentions `==` on records has lost its meaning and every
+// property of the unit is undecided (never a violation by itself).
+impl vstd::std_specs::cmp::PartialEqSpecImpl for Record {
+    open spec fn obeys_eq_spec() -> bool { true }
+    open spec fn eq_spec(&self, other: &Record) -> bool { self.value@ == other.value@ }
+}
+impl PartialEq for Record {
+//@fn cache/cache.rs | impl PartialEq for Record | eq | ret=r | safety=ALL
+    ensures
+        r == (self.value@ == other.value@), // @ob ALL record.eq.value_bytes_only
+//@endfn
+}
+
 impl CacheError {
 //@fn cache/error.rs | impl CacheError | to_static_string | ret=r | safety=C10
     ensures
